@@ -53,6 +53,6 @@ Ltac gsolve2 H :=
     | |- context [ln _] =>
       let t := fresh "t" in let Ht := fresh "Ht" in let E := fresh "E" in
       destruct (sixth_root _ H) as [t [Ht E]];
-      all_X_to_t6 t E; rp_all t; try (rewrite (ln_t6 t) by assumption); s_close
-    | |- _ => s_close      (* energy polynomial in the invariants: no substitution needed *)
+      all_X_to_t6 t E; rp_all t; try (rewrite (ln_t6 t) by assumption); try exp_unify; try exp_pairs; s_close
+    | |- _ => try exp_unify; try exp_pairs; s_close      (* energy polynomial in the invariants: no substitution needed *)
     end ].
